@@ -239,6 +239,22 @@ def obligations(tier, seed):
         dcan = "\n".join([".link {B}", "LB: nop"] + ddefs + body) + "\n"
         for vname, lines in (("after", body + ddefs), ("after-reversed", body + ddefs[::-1]), ("split", ddefs[1:] + body + ddefs[:1])):
             obs.append(_ob(f"dot-assign/{oname}/{vname}", dcan, "\n".join([".link {B}", "LB: nop"] + lines) + "\n", ["A", "B"], ranges={"A": [0, 6]}))
+    # definitions placed directly behind statements that are still pending and read '.', or whose size is one of the symbols;
+    # with the base known from the start and with '.link' at the very end
+    ddefs2 = ["s0 = {A}", "s1 = s0 + 2"]
+    duses = [".word LE - ., s1", ".byte 1, LE - ., 3", ".even", ".blkb s0", "M1: .word M1 - LB, s1", ".ascii \"ab\"<s1>", ".even", "M2: .word M2 - M1"]
+    for late in (False, True):
+        head, tail = ([], [".link {B}"]) if late else ([".link {B}"], [])
+        dcan2 = "\n".join(head + ["LB: nop"] + ddefs2 + duses + ["LE: nop"] + tail) + "\n"
+        for j in range(len(duses) + 1):
+            lines = head + ["LB: nop"] + duses[:j] + ddefs2[::-1] + duses[j:] + ["LE: nop"] + tail
+            obs.append(_ob(f"behind-pending/{'late-link' if late else 'link-first'}/{j}", dcan2, "\n".join(lines) + "\n", ["A", "B"], ranges={"A": [0, 5]}))
+    # a register number given by a symbol: accepted or refused alike wherever the symbol is defined
+    for oname, use in (("fp-src", "ldf %rn, ac0"), ("fp-single", "clrf %rn"), ("general", "mov %rn, (%rn)+"), ("fp-expr", "mulf %<rn+1>, ac1")):
+        rdefs = ["r0n = {A}", "rn = r0n"]
+        rcan = "\n".join(rdefs + [use, ".word 1"]) + "\n"
+        for vname, lines in (("after", [use, ".word 1"] + rdefs), ("after-reversed", [use, ".word 1"] + rdefs[::-1]), ("split", rdefs[1:] + [use, ".word 1"] + rdefs[:1])):
+            obs.append(_ob(f"register-symbol/{oname}/{vname}", rcan, "\n".join(lines) + "\n", ["A"], ranges={"A": [-1, 9]}))
     # definitions that are also exported, in every order: the outcome (here: also WHICH outcome -- '==' under '.extern all' is a duplicate) stays
     for fam, edefs in (("extern-all+==", [".extern all", "K == {A}", "J = K + 1"]), ("extern-name+=", [".extern K", "K = {A}", "J == K + 1"]),
                        ("label::+extern-all", ["K:: .word {A}", ".extern all", "J = K + 2"])):
